@@ -3,6 +3,9 @@ package node
 import (
 	"errors"
 	"fmt"
+	"math/rand/v2"
+	"strings"
+	"sync"
 	"sync/atomic"
 
 	"github.com/NethermindEth/juno/blockchain"
@@ -15,6 +18,7 @@ import (
 	_ "github.com/NethermindEth/juno/encoder/registry"
 	"github.com/cockroachdb/pebble/v2"
 	"github.com/cockroachdb/pebble/v2/vfs"
+	"github.com/cockroachdb/pebble/v2/vfs/errorfs"
 
 	"jsim/chaingen"
 	"jsim/faultdb"
@@ -29,6 +33,14 @@ type Store struct {
 	fs     *vfs.MemFS
 	path   string
 	kv     db.KeyValueStore
+
+	// mid-commit capture (Pebble only): a crash clone is taken whenever a WAL file is about to be
+	// synced, i.e. between the write and the fsync of a commit.
+	capture   bool
+	capMu     sync.Mutex
+	capRNG    *rand.Rand
+	capPct    []int
+	MidImages []*vfs.MemFS
 }
 
 var pathCounter atomic.Uint64
@@ -61,12 +73,63 @@ func NewStore(c *sim.Ctx, usePebble bool) *Store {
 	s.fs = vfs.NewCrashableMem()
 	s.path = fmt.Sprintf("/jsim-nonexistent-%d/db", pathCounter.Add(1))
 	c.Must(s.fs.MkdirAll(s.path, 0o755), "mkdir on memfs")
+	// "the data directory exists durably": sync the directory chain, otherwise a strict crash
+	// clone loses the whole directory, which says nothing about the database.
+	for _, dir := range []string{"/", s.fs.PathDir(s.path), s.path} {
+		d, err := s.fs.OpenDir(dir)
+		c.Must(err, "open dir on memfs")
+		c.Must(d.Sync(), "sync dir on memfs")
+		c.Must(d.Close(), "close dir on memfs")
+	}
 	s.open(c)
 	return s
 }
 
+// EnableCapture turns on mid-commit crash-clone capture (before the first commit).
+func (s *Store) EnableCapture(seed uint64, pcts []int) {
+	s.capture = true
+	s.capRNG = rand.New(rand.NewPCG(seed, 0x5eed))
+	s.capPct = pcts
+}
+
+// TakeMidImages returns and clears the captured mid-commit clones.
+func (s *Store) TakeMidImages() []*vfs.MemFS {
+	s.capMu.Lock()
+	defer s.capMu.Unlock()
+	out := s.MidImages
+	s.MidImages = nil
+	return out
+}
+
+func (s *Store) onOp(op errorfs.Op) error {
+	if !s.capture {
+		return nil
+	}
+	switch op.Kind {
+	case errorfs.OpFileSync, errorfs.OpFileSyncData, errorfs.OpFileSyncTo:
+	default:
+		return nil
+	}
+	if !strings.HasSuffix(op.Path, ".log") {
+		return nil
+	}
+	s.capMu.Lock()
+	defer s.capMu.Unlock()
+	for _, p := range s.capPct {
+		s.MidImages = append(s.MidImages, s.fs.CrashClone(vfs.CrashCloneCfg{UnsyncedDataPercent: p, RNG: s.capRNG}))
+	}
+	return nil
+}
+
+// FromFS builds a store on a given (cloned) file system.
+func (s *Store) FromFS(c *sim.Ctx, fs *vfs.MemFS) *Store {
+	n := &Store{Pebble: true, path: s.path, fs: fs}
+	n.open(c)
+	return n
+}
+
 func (s *Store) open(c *sim.Ctx) {
-	kv, err := pebblev2.New(s.path, pebbleOpts(s.fs))
+	kv, err := pebblev2.New(s.path, pebbleOpts(errorfs.Wrap(s.fs, errorfs.InjectorFunc(s.onOp))))
 	c.Must(err, "open pebble on memfs")
 	s.kv = kv
 }
